@@ -52,6 +52,16 @@ class Recorder:
             name = comp_name or computation.name
             for kind in ("start", "on_message", "pause"):
                 setattr(computation, kind, rec.wrap(agent.name, name, kind, getattr(computation, kind)))
+            # the message handlers themselves too (a handler called directly, not through on_message, is still a callback of the
+            # computation): the handler table of the instance, and the management computation's _orchestrator_* commands, which
+            # on_message looks up by name
+            handlers = getattr(computation, "_msg_handlers", None)
+            if isinstance(handlers, dict):
+                for mt, h in list(handlers.items()):
+                    handlers[mt] = rec.wrap(agent.name, name, "handler", h)
+            for attr in dir(type(computation)):
+                if attr.startswith("_orchestrator_") and callable(getattr(computation, attr, None)):
+                    setattr(computation, attr, rec.wrap(agent.name, name, "handler", getattr(computation, attr)))
             return rec._orig["add"](agent, computation, comp_name, publish)
 
         def set_periodic_action(agent, period, cb):
